@@ -9,12 +9,16 @@ import re
 
 import impl
 import lib
+import ginspecttie
+import dispatchtie
 from lib import coq_bool, coq_list, coq_string
 import c17_cat
 from c17_cat import Cat, MODNAME
 
 COQ_TARGETS = ["theories/Model/Inspect.vo", "theories/Model/InspectEq.vo", "theories/Model/InspectCache.vo",
                "theories/Model/InspectSpec.vo", "theories/Proofs/InspectLemmas.vo"]
+COQ_TARGETS = COQ_TARGETS + [t for t in ginspecttie.COQ_TARGETS if t not in COQ_TARGETS]
+COQ_TARGETS = COQ_TARGETS + [t for t in dispatchtie.COQ_TARGETS if t not in COQ_TARGETS]
 
 # Work-around (lib.py is not mine): base_make hands coq_makefile an ABSOLUTE project path, so the generated
 # dependency file names absolute .vo paths while the make targets are relative: make does not connect them and
@@ -658,6 +662,8 @@ def correspond(run: lib.Run):
     run._c17_rows = rows
     run._c17_bad = bad
     correspond_history(run, cat)
+    lib.run_tie(run, dispatchtie, streams=True, core=False)      # first-match dispatch over _HANDLERS by this model's predicates (dyn/Dispatch)
+    lib.run_tie(run, ginspecttie)      # the graph model's copies of the inspection predicates agree with this model (dyn/GraphInspect)
 
 
 # ----------------------------------------------------------------------------------
